@@ -58,6 +58,7 @@ Lemma changed_of_eq cm old v :
   match cm with
   | CAlways => true
   | CNe => match old with Some o => negb (Z.eqb o v) | None => true end
+  | CPar => match old with Some o => negb (Bool.eqb (Z.even o) (Z.even v)) | None => true end
   end = changed_of cm old v.
 Proof. reflexivity. Qed.
 
